@@ -9,7 +9,7 @@
       kind 0 (one stapleOCSP call):
          disabled cert staple? ocsp? stored? env now | staple? ocsp? stored? seen err ops
       kind 1 (history from an empty cache and empty store):
-         list of (op | cache store calls served)
+         list of (op own? | cache store calls served)
     where x? is an optional blob index, ocsp? stands for the parse of that blob. *)
 From CM Require Import Lib.Str Lib.Wire Ocsp.Model.
 Open Scope Z_scope.
@@ -111,11 +111,21 @@ Definition get_served (bl : list blob) : dec served_obs :=
   get_list (n <- get_z ;;
             v <- get_opt (c <- get_z ;; s <- get_opt (get_ref bl) ;; ret (c, s)) ;; ret (n, v)).
 
-Record hstep := HStep { hs_op : op; hs_post : sys; hs_calls : list call; hs_served : served_obs }.
+(** [hs_own]: for a cache operation, the staple the implementation itself persisted for that
+    certificate earlier in the history (seen as a successful Store of those bytes under ANY ocsp/
+    key when it attached them) and which the harness has not touched since *)
+Record hstep := HStep { hs_op : op; hs_own : option blob; hs_post : sys; hs_calls : list call;
+                        hs_served : served_obs }.
 
 Definition get_hstep (bl : list blob) (cl : list cert) : dec hstep :=
-  o <- get_op bl cl ;; s <- get_sys bl cl ;; c <- get_calls ;; sv <- get_served bl ;;
-  ret (HStep o s c sv).
+  o <- get_op bl cl ;; ow <- get_opt (get_ref bl) ;; s <- get_sys bl cl ;; c <- get_calls ;;
+  sv <- get_served bl ;; ret (HStep o ow s c sv).
+
+Definition own_reuse_step (h : hstep) : bool :=
+  match hs_op h with
+  | OCache c _ disabled e now => own_reuse (hs_own h) c disabled e now (hs_calls h)
+  | _ => true
+  end.
 
 Inductive case :=
 | CCall (c : call_case)
@@ -204,7 +214,7 @@ Fixpoint check_hist (certs : list cert) (pre : sys) (l : list hstep) (agree spec
                store_eqb certs (stor mpost) (stor (hs_post h)) &&
                calls_eqb mcalls (hs_calls h) && served_eqb (cache mpost) (hs_served h) in
       let s := spec_step pre (hs_op h) (hs_post h) (hs_calls h) &&
-               served_consistent (hs_post h) (hs_served h) in
+               served_consistent (hs_post h) (hs_served h) && own_reuse_step h in
       check_hist certs (hs_post h) r (agree && a) (spec && s)
   end.
 
@@ -241,7 +251,7 @@ Fixpoint explain_hist (certs : list cert) (pre : sys) (l : list hstep) : list Z 
        zb (step_reuse pre (hs_op h) (hs_post h) (hs_calls h));
        zb (step_corrupt pre (hs_op h) (hs_post h) (hs_calls h));
        zb (step_revoked pre (hs_op h) (hs_post h) (hs_calls h));
-       zb (step_persist pre (hs_op h) (hs_post h));
+       zb (step_persist pre (hs_op h) (hs_post h)); zb (own_reuse_step h);
        Z.of_nat (length (cache mpost))] ++
       flat_map (fun en => [c_id (en_cert en); zb (en_managed en); oid (cs_staple (en_cs en));
                            ost (cs_ocsp (en_cs en))]) (cache mpost) ++
